@@ -25,7 +25,7 @@ RULE_TEXT = ("In-process server stack (SQLite or memory store), idle_timeout in 
 COMPONENTS = {"real": ["IdleReleaseDecorator + KeyedLock reload lock, IdleReleaseExternalRunAdapter.send_event, PersistenceDecorator, server stack, engine"],
               "stub": ["llama_index_instrumentation"], "sim": ["loop, clocks, runner registry, senders"]}
 ASSUMPTIONS = ["claim limited to the in-process stack; the DBOS lifecycle lock is not exercised"]
-EXPECTED_PROBES = ["send-to-released-run", "send-at-release-instant", "two-senders-same-instant", "released", "release-while-working"]
+EXPECTED_PROBES = ["store-latency-arm", "send-to-released-run", "send-at-release-instant", "two-senders-same-instant", "released", "release-while-working"]
 LEVEL_TEXT = "Seeded exploration of sender instants around release/reload; safety rules at every runner start/exit, liveness (event processed) at quiescence."
 LEVEL_NOTE = "Trusted: simulator loop/clocks, runner registry (subclass of the private _ControlLoopRunner, behaviour unchanged)."
 
@@ -40,6 +40,11 @@ def gen(tape, cfg):
 async def scenario(world, spec):
     it = float(world.tape.choice([2, 4], "idle_timeout"))
     world.cfg["idle_timeout"] = it
+    # half of the runs: store I/O really suspends (networked database), so senders and the release timer interleave inside
+    # their store round trips
+    world.cfg["store_latency"] = bool(world.tape.draw(2, "store-latency?"))
+    if world.cfg["store_latency"]:
+        world.probe("store-latency-arm")
     world._it = it
     inc = world.new_incarnation()
     wf = inc.add_workflow("wf", spec)
